@@ -3,6 +3,8 @@
 package main
 
 import (
+	"sync/atomic"
+	"sync"
 	"bytes"
 	"encoding/hex"
 	"encoding/json"
@@ -119,6 +121,59 @@ func init() {
 				walk(doc)
 				b, _ := json.Marshal(out)
 				return string(b)
+			case "concurrent":
+				// {"docs":[{url,ctype,bodyhex,headers}...],"workers":n,"rounds":k}: the documents go through the extractors from n goroutines at
+				// once, as the postprocessor's worker pool does (shared state of the extractors must hold up)
+				docs := list(in, "docs")
+				workers := num(in, "workers", 8)
+				rounds := num(in, "rounds", 1)
+				var wg sync.WaitGroup
+				var crashes atomic.Int64
+				var first atomic.Value
+				for w := 0; w < workers; w++ {
+					wg.Add(1)
+					go func(w int) {
+						defer wg.Done()
+						for k := 0; k < rounds; k++ {
+							for i := range docs {
+								d, _ := docs[(i+w)%len(docs)].(map[string]any)
+								func() {
+									defer func() {
+										if r := recover(); r != nil {
+											crashes.Add(1)
+											first.CompareAndSwap(nil, fmt.Sprint(r))
+										}
+									}()
+									// every worker sees its own variant of the document (distinct <base> values, distinct URLs)
+									dd := map[string]any{}
+									for k2, v := range d {
+										dd[k2] = v
+									}
+									if tmpl, ok := d["bodyTemplate"].(string); ok {
+										dd["body"] = strings.ReplaceAll(tmpl, "{W}", fmt.Sprintf("w%dk%di%d", w, k, i))
+										delete(dd, "bodyhex")
+									}
+									out := docOp(dd)
+									if strings.HasPrefix(out, "crash") || strings.HasPrefix(out, "panic") {
+										crashes.Add(1)
+										first.CompareAndSwap(nil, out)
+									}
+								}()
+							}
+						}
+					}(w)
+				}
+				finished := make(chan struct{})
+				go func() { wg.Wait(); close(finished) }()
+				select {
+				case <-finished:
+				case <-time.After(time.Duration(num(in, "timeoutMs", 60000)) * time.Millisecond):
+					return "hang concurrent documents did not finish"
+				}
+				if crashes.Load() > 0 {
+					return fmt.Sprintf("crash %d document(s): %v", crashes.Load(), first.Load())
+				}
+				return "ok"
 			case "doc":
 				// in its own goroutine, with a watchdog: a parser that spins must not take the harness with it
 				done := make(chan string, 1)
